@@ -31,10 +31,10 @@ Proof.
   - exists [], s, c. rewrite Nat.add_0_r. repeat split; [constructor|exact H].
   - destruct (body s pos c _) as [r|] eqn:E.
     + injection H as ->. apply Hb in E. destruct E as (u1 & rest1 & c1 & -> & Hm1 & Hk).
-      destruct (Nat.eqb_spec (pos + length u1) pos) as [Heq|Hne]; [discriminate|].
+      destruct (Nat.ltb_spec (length rest1) (length (u1 ++ rest1))) as [Hlt|Hge]; [|discriminate].
       apply IH in Hk. destruct Hk as (u2 & rest & c2 & -> & Hm2 & Hk).
       exists (u1 ++ u2), rest, c2. rewrite app_assoc. split; [reflexivity|]. split.
-      * apply mt_star1; [destruct u1; [cbn in Hne; lia|discriminate]|exact Hm1|exact Hm2].
+      * apply mt_star1; [destruct u1; [cbn in Hlt; lia|discriminate]|exact Hm1|exact Hm2].
       * rewrite app_length, Nat.add_assoc. exact Hk.
     + exists [], s, c. rewrite Nat.add_0_r. repeat split; [constructor|exact H].
 Qed.
@@ -90,8 +90,8 @@ Proof.
     rewrite <- app_assoc.
     match goal with |- context [body ?s ?p ?c ?kk] => destruct (body s p c kk) eqn:E end; [discriminate|].
     exfalso. revert E. apply Hb; [exact Hm1|]. intros c'.
-    destruct (Nat.eqb_spec (pos + length u1) pos) as [Heq|_].
-    + destruct u1; [congruence|cbn in Heq; lia].
+    destruct (Nat.ltb_spec (length (u2 ++ rest)) (length (u1 ++ u2 ++ rest))) as [_|Hge].
+    2:{ rewrite app_length in Hge. destruct u1; [congruence|cbn in Hge; lia]. }
     + apply (IH2 eq_refl).
       * rewrite <- app_assoc, app_length in Hf. destruct u1; [congruence|cbn in Hf; lia].
       * rewrite app_length, Nat.add_assoc in Hk. exact Hk.
